@@ -754,6 +754,12 @@ def run(ctx):
                   construct='%s: table mutation scan' % mod_.relpath, trivial=True)
     ctx.rule('R08l', 'accented characters are composed with NFC from the base letter and the combining mark (C03 R03g)', 1)
     _core.run_proxied(ctx, _c03, 'R08l', ('R03g',))
+    # ---- R08n (C09 R09f): the default text database is built per call
+    ctx.rule('R08n', 'get_default_latex_context_db() returns a database constructed by the call: the documented way of '
+                     'customising it (add_context_category on the returned object) cannot change what a later default '
+                     'LatexNodes2Text() decodes to (C09 R09f)', 2)
+    from . import c09 as _c09b
+    _c09b.default_db_fresh(ctx, 'R08n', repo)
     # ---- R08m (C04 R04o): what unicode_to_latex returns is what the rules and protections produced
     ctx.rule('R08m', 'every return of unicode_to_latex returns the output it accumulated from the rules and their protection: no '
                      'post-pass rewrites the encoded text (dropping the `{}` after a macro lets the following blank be eaten when '
